@@ -218,10 +218,21 @@ class Tensor(Funsor, metaclass=TensorMeta):
         if not subs:
             return self
 
-        # Handle diagonal variable substitution
-        var_counts = Counter(v for v in subs.values() if isinstance(v, Variable))
+        # Handle diagonal variable substitution, including renaming or slicing
+        # onto a name that remains an input while the rest of subs is applied.
+        name_counts = Counter(
+            subs[k].name if isinstance(subs.get(k), (Variable, Slice)) else k
+            for k in self.inputs
+        )
         subs = OrderedDict(
-            (k, self.materialize(v) if var_counts[v] > 1 else v)
+            (
+                k,
+                (
+                    self.materialize(v)
+                    if isinstance(v, (Variable, Slice)) and name_counts[v.name] > 1
+                    else v
+                ),
+            )
             for k, v in subs.items()
         )
 
